@@ -198,9 +198,161 @@ def check_model(net, bounds, P, stats):
     return out
 
 
+def _neg(x):
+    if isinstance(x, str):
+        return x
+    return -x
+
+
+def _compare(res, want, req, flip, bad, stats):
+    """Reported frame vs exact ranges (flipped reactions: sign and ends swapped)."""
+    if list(res.index) != list(req):
+        bad("index of the result differs from the request", f"{list(res.index)} vs {req}")
+        return
+    for rid in req:
+        lo, hi = want[rid]
+        if rid in flip:
+            lo, hi = _neg(hi), _neg(lo)
+        glo, ghi = float(res.at[rid, "minimum"]), float(res.at[rid, "maximum"])
+        for name, w, g in (("minimum", lo, glo), ("maximum", hi, ghi)):
+            if isinstance(w, str):
+                if math.isfinite(g) and abs(g) < 1e6:
+                    bad(f"{name} finite but the true range is unbounded", f"{rid}: reported {g}", which=name)
+                continue
+            w = float(w)
+            if w != 0:
+                stats["nontrivial"] = stats.get("nontrivial", 0) + 1
+            if not (abs(g - w) <= TOL * max(1, abs(w))):
+                bad(f"{name} differs from the true extreme", f"{rid}: reported {g}, true {w}\nreported:\n{res}",
+                    which=name, side="inside" if (g > w if name == "minimum" else g < w) else "outside")
+        if glo > ghi + TOL:
+            bad("minimum > maximum", f"{rid}: {glo} > {ghi}")
+
+
+def check_spelling_and_history(net, bounds, stats):
+    """Members with an internal cycle, (a) with every internal reaction written backwards (the same flows carry
+    negative fluxes, cycles run 'negative'), (b) as a history on one model object: FVA (plain and loopless) on the
+    network without one internal reaction, add that reaction, FVA again, remove it, FVA again - each step against the
+    exact ranges of the network as it then is."""
+    from cobra import Reaction
+    from cobra.flux_analysis import flux_variability_analysis
+
+    mets, rxns = families.as_data(net, bounds)
+    ids = [r[0] for r in rxns]
+    base = exactlp.FBA(mets, rxns)
+    ok, _ = exactlp.feasible(base.lp())
+    out = []
+    if not ok or len(oracles.internal_ids(base)) > 3:
+        return out
+    internal = [r[0] for r in rxns if len(r[1]) > 1]
+    obj, direction = {ids[-1]: 1}, "max"
+
+    def fva(model, loopless, f):
+        with warnings.catch_warnings():
+            warnings.simplefilter("ignore")
+            return flux_variability_analysis(model, loopless=loopless, fraction_of_optimum=f, processes=1)
+
+    def exact(rx, loopless, f):
+        used = [m for m in mets if any(m in r[1] for r in rx)]
+        fba = exactlp.FBA(used, rx, {k: v for k, v in obj.items() if k in [r[0] for r in rx]}, direction)
+        st, z, _ = fba.optimum()
+        if st != OPT or (f != 1.0 and z < 0):
+            return None
+        lp, info = oracles.constrained_lp(fba, f, None)
+        if lp is None:
+            return None
+        if loopless:
+            b0 = exactlp.FBA(used, rx)
+            return oracles.loopless_ranges(fba, lp, patterns=oracles.loopfree_patterns(b0)), objective_in_cycle(rx, used, obj)
+        return oracles.ranges(fba, lp), False
+
+    # (a) backwards spelling
+    flip = set(internal)
+    for loopless in (True, False):
+        for f in (1.0, 0.5):
+            ex = exact(rxns, loopless, f)
+            if ex is None or ex[0] is None:
+                continue
+            want, in_cycle = ex
+            stats["evaluations"] = stats.get("evaluations", 0) + 1
+            case = {"net": [list(c) for c in net], "bounds": [[_j(a), _j(b)] for a, b in bounds], "pass": "backwards",
+                    "loopless": loopless, "fraction": f}
+
+            def bad(check, detail, **extra):
+                s = {"check": check, "loopless": loopless, "fraction": f, "pass": "backwards"}
+                if loopless:
+                    s["objective_in_cycle"] = in_cycle
+                s.update(extra)
+                out.append((s, dict(case), f"{detail}\nmodel (internal reactions written backwards): {rxns}"))
+
+            model = families.build_model(mets, rxns, flip=flip)
+            model.objective = {model.reactions.get_by_id(r): (-c if r in flip else c) for r, c in obj.items()}
+            try:
+                res = fva(model, loopless, f)
+            except Exception as exc:
+                if any(isinstance(v, str) for rng in want.values() for v in rng):
+                    continue
+                bad("FVA raised on a feasible model", repr(exc), exc=type(exc).__name__)
+                continue
+            _compare(res, want, ids, flip, bad, stats)
+    # (b) history: without k -> add k -> remove k
+    for k in internal:
+        if k == ids[-1]:
+            continue
+        rest = [r for r in rxns if r[0] != k]
+        if not all(any(m in r[1] for r in rest) for m in mets):
+            continue    # removing k would orphan a metabolite: keep the metabolite set fixed
+        model = families.build_model(mets, rest)
+        model.objective = {model.reactions.get_by_id(ids[-1]): 1}
+        kdata = [r for r in rxns if r[0] == k][0]
+        steps = [("without", rest, None), ("added", rxns, "add"), ("removed", rest, "remove")]
+        for sname, rx, action in steps:
+            if action == "add":
+                r = Reaction(k)
+                r.add_metabolites({model.metabolites.get_by_id(m): c for m, c in kdata[1].items()})
+                r.bounds = (kdata[2], kdata[3])
+                model.add_reactions([r])
+            elif action == "remove":
+                model.remove_reactions([model.reactions.get_by_id(k)])
+            order = [x.id for x in model.reactions]
+            for loopless in (True, False):
+                ex = exact(rx, loopless, 1.0)
+                if ex is None or ex[0] is None:
+                    continue
+                want, in_cycle = ex
+                stats["evaluations"] = stats.get("evaluations", 0) + 1
+                case = {"net": [list(c) for c in net], "bounds": [[_j(a), _j(b)] for a, b in bounds], "pass": "history",
+                        "reaction": k, "step": sname, "loopless": loopless}
+
+                def bad(check, detail, **extra):
+                    s = {"check": check, "loopless": loopless, "pass": "history", "step": sname}
+                    if loopless:
+                        s["objective_in_cycle"] = in_cycle
+                    s.update(extra)
+                    out.append((s, dict(case), f"{detail}\nhistory: FVA on the network without {k}; add {k}; FVA; remove {k}; FVA "
+                                               f"(step {sname})\nfull model: {rxns}"))
+
+                try:
+                    res = fva(model, loopless, 1.0)
+                except Exception as exc:
+                    if any(isinstance(v, str) for rng in want.values() for v in rng):
+                        continue
+                    bad("FVA raised on a feasible model", repr(exc), exc=type(exc).__name__)
+                    continue
+                _compare(res, want, order, set(), bad, stats)
+    return out
+
+
 def run_task(payload):
     P = payload["params"]
     stats, violations = {}, []
+    if payload.get("spelling_history"):
+        for net in payload["nets"]:
+            net = tuple(tuple(c) for c in net)
+            for bounds in families.bound_assignments(net, P["d"], P["menu"]):
+                stats["models_spelling_history"] = stats.get("models_spelling_history", 0) + 1
+                violations.extend(check_spelling_and_history(net, bounds, stats))
+        return {"violations": violations[:300], "stats": stats}
     for net in payload["nets"]:
         net = tuple(tuple(c) for c in net)
         for bounds in families.bound_assignments(net, P["d"], P["menu"]):
@@ -212,6 +364,11 @@ def run_task(payload):
 def replay(case):
     net = tuple(tuple(c) for c in case["net"])
     bounds = tuple((_u(a), _u(b)) for a, b in case["bounds"])
+    if case.get("pass") in ("backwards", "history"):
+        import json
+
+        out = check_spelling_and_history(net, bounds, {})
+        return [{"sig": s, "detail": d} for s, c, d in out if json.loads(json.dumps(c)) == case]
     out = check_model(net, bounds, params("thorough"), {})
     return [{"sig": s, "detail": d} for s, c, d in out
             if c["objective"] == case["objective"] and c["direction"] == case["direction"]
@@ -233,6 +390,13 @@ def explore(ctx):
         nets += ns
         chunk = 2 if ctx.tier == "quick" else 1
         payloads += [{"params": PP, "nets": ns[i:i + chunk]} for i in range(0, len(ns), chunk)]
+    # members with an internal cycle: backwards spelling, and prime / add / remove histories on one model object
+    from .c17 import has_internal_cycle
+
+    PS = dict(nm=3, nr=4, K=(-1, 0, 1), d=1, menu=[(0, 10), (-10, 10), (-10, 0)] + ([(2, 10), (0, 0)] if ctx.thorough else []))
+    cyc = [n for n in families.networks(PS["nm"], PS["nr"], PS["K"]) if has_internal_cycle(n)
+           and (ctx.thorough or len(n) <= 3 or sum(1 for c in n if families.is_boundary(c)) >= 1)]
+    payloads += [{"params": PS, "nets": cyc[i:i + 2], "spelling_history": True} for i in range(0, len(cyc), 2)]
     stats = {}
     with ctx.pool(timeout=3000) as pool:
         for i, status, res in pool.imap(payloads):
@@ -254,6 +418,9 @@ def explore(ctx):
                 % (P["nm"], P["nr"], len(P["menu"]), P["d"], P["opt_dev"]),
         "exhaustive": True, "networks": len(nets), "models": stats.get("models", 0), "stats": stats,
         "exactlp_selftest_lps": n_self,
+        "spelling_history_pass": "%d members with an internal cycle x <=1 bound deviation: every internal reaction written "
+                                 "backwards (loopless/plain x fraction 1/0.5), and histories FVA / add reaction / FVA / remove "
+                                 "reaction / FVA on one model object (%d models)" % (len(cyc), stats.get("models_spelling_history", 0)),
     })
     ctx.sample({"net": [list(c) for c in nets[0]], "options": "default and deviations"})
     ctx.assumptions += ["fractions < 1 only when the optimum has the sign of the direction (property precondition)",
